@@ -198,7 +198,6 @@ def main(argv):
             known_by_fn.setdefault(k['function'], []).append(k)
     jobs = [(f, None, None) for f in present]
     outs = run_pool(jobs)
-    agg = aggregate(outs)
     lines = []
     violations = []
     engine_errors = []
@@ -210,13 +209,19 @@ def main(argv):
         if o['error']:
             engine_errors.append('%s: %s' % (o['fn'], o['error']))
         elif len(o.get('uncovered') or []) > o.get('allow_uncovered', 0):
-            # vacuity guard: code no feasible explored path reaches (contradictory contracts
-            # would discharge everything behind them)
-            engine_errors.append('%s: vacuity: %d blocks not reached by any feasible path (declared: %d): %s' % (
-                o['fn'], len(o['uncovered']), o.get('allow_uncovered', 0), o['uncovered'][:6]))
+            # vacuity guard: code no feasible explored path reaches. On the unchanged tree every
+            # block is reached (or declared unreachable in the contract), so this is either a
+            # contradictory contract or a change that made code under contract dead: the
+            # obligations behind it are no longer checked. Reported as a violation of its own.
+            short = o['fn'].split('/')[-1].replace('::', '.')
+            o['results'].append({'name': '%s.reachability' % short, 'kind': 'reachability', 'fn': o['fn'],
+                                 'verdict': 'failed', 'seconds': 0, 'solver': 'coverage of explored paths', 'pos': None,
+                                 'text': 'every block of the function is reached by a feasible path (%d declared unreachable)' % o.get('allow_uncovered', 0),
+                                 'note': 'unreached blocks: %s' % o['uncovered'][:8], 'inputs': None, 'solver_output': {'coverage': str(o['uncovered'][:8])}})
         elif o.get('returns', 0) == 0 and not any(r['kind'] == 'subset' for r in o['results']) \
                 and not any('vacuity' == r['kind'] for r in o['results']):
             pass
+    agg = aggregate(outs)
     # known findings: re-run the affected functions with the class excluded / restricted
     kf_lines = []
     handled = set()
